@@ -50,6 +50,7 @@ typedef struct
 
 } MantisCTRVec128Ctx_t;
 
+static void mantis_ctr_vec128_rewind(MantisCTRVec128Ctx_t *ctx);
 static int mantis_ctr_vec128_set_counter
     (MantisCTR_t *ctr, const void *counter, unsigned size);
 
@@ -94,8 +95,8 @@ static int mantis_ctr_vec128_set_key
     if (!mantis_set_key(&(ctx->ks), key, size, rounds, MANTIS_ENCRYPT))
         return 0;
 
-    /* Reset the keystream */
-    ctx->offset = MANTIS_CTR_BLOCK_SIZE;
+    /* Reset the keystream to the next unused block */
+    mantis_ctr_vec128_rewind(ctx);
     return 1;
 }
 
@@ -113,8 +114,8 @@ static int mantis_ctr_vec128_set_tweak
     if (!mantis_set_tweak(&(ctx->ks), tweak, tweak_size))
         return 0;
 
-    /* Reset the keystream */
-    ctx->offset = MANTIS_CTR_BLOCK_SIZE;
+    /* Reset the keystream to the next unused block */
+    mantis_ctr_vec128_rewind(ctx);
     return 1;
 }
 
@@ -137,6 +138,41 @@ STATIC_INLINE void mantis_ctr_increment
         ptr[0] = (uint8_t)inc;
         inc >>= 8;
     }
+}
+
+/* Decrement a specific column in an array of row vectors */
+STATIC_INLINE void mantis_ctr_decrement
+    (SkinnyVector8x16_t *counter, unsigned column, unsigned dec)
+{
+    uint8_t *ctr = ((uint8_t *)counter) + column * 2;
+    uint8_t *ptr;
+    unsigned index;
+    for (index = 8; index > 0; ) {
+        --index;
+        ptr = ctr + (index & 0x06) * 8;
+#if SKINNY_LITTLE_ENDIAN
+        ptr += index & 0x01;
+#else
+        ptr += 1 - (index & 0x01);
+#endif
+        dec = ptr[0] - dec;
+        ptr[0] = (uint8_t)dec;
+        dec = (dec >> 8) & 1; /* borrow */
+    }
+}
+
+/* Called when the key or tweak changes.  Discards the buffered keystream
+   and rewinds the counter so that the stream resumes with the first block
+   that has not been used yet, exactly as the generic back end does */
+static void mantis_ctr_vec128_rewind(MantisCTRVec128Ctx_t *ctx)
+{
+    if (ctx->offset < MANTIS_CTR_BLOCK_SIZE) {
+        unsigned unused = (MANTIS_CTR_BLOCK_SIZE - ctx->offset) / MANTIS_BLOCK_SIZE;
+        unsigned column;
+        for (column = 0; column < 8; ++column)
+            mantis_ctr_decrement(ctx->counter, column, unused);
+    }
+    ctx->offset = MANTIS_CTR_BLOCK_SIZE;
 }
 
 static int mantis_ctr_vec128_set_counter
